@@ -5,6 +5,7 @@ package c11
 // generator keeps a light "world" of objects it has created so that most messages are valid.
 
 import (
+	"os"
 	"crypto/sha256"
 	"encoding/hex"
 	"encoding/json"
@@ -138,6 +139,7 @@ type world struct {
 	// counters of the rarer shapes (classes shared by the C11/C12/C13 machines)
 	htltCreated, htltClaimed, oracleRandom, seedProviders, timePromoBindings int
 	discardedAfterExec, historyShortened, foreignProviders                     int
+	autoPaused, foreignPriced, priceCalls                                      int
 }
 
 // shapeClasses names the rarer shapes this history contained (accepted transactions only).
@@ -156,6 +158,9 @@ func (w *world) shapeClasses() []string {
 	add(w.discardedAfterExec > 0, "tx-executed-then-discarded")
 	add(w.historyShortened > 0, "feed-history-length-edited")
 	add(w.foreignProviders > 0, "binding-owner-is-not-provider")
+	add(w.autoPaused > 0, "context-paused-by-end-blocker")
+	add(w.foreignPriced > 0, "binding-priced-through-exchange-rate")
+	add(w.priceCalls > 0, "oracle-price-call-ok")
 	return cl
 }
 
@@ -335,7 +340,28 @@ func (h *hist) nextTx(t *rapid.T) (txSpec, bool) {
 	fam := rapid.SampledFrom([]string{"coinswap", "coinswap", "farm", "htlc", "mt", "nft", "service", "service", "service", "oracle", "random", "record", "token", "bank"}).Draw(t, "family")
 	switch fam {
 	case "bank":
-		return txSpec{}, false
+		// an account with a running obligation (consumer of a request context, creator of a feed) moves its stake away:
+		// the next batch cannot be charged and the end blocker pauses the context on its own; or a drained account is
+		// topped up again
+		var cands []int
+		for _, c := range w.ctxs {
+			cands = append(cands, c.Consumer)
+		}
+		for _, f := range w.feeds {
+			cands = append(cands, f.Creator)
+		}
+		if len(cands) == 0 {
+			return txSpec{}, false
+		}
+		who := pick(t, "drain", cands)
+		bal := h.n.App.BankKeeper.GetBalance(ctx, h.n.Users[who].Addr, "stake").Amount
+		if bal.LT(sdkmath.NewInt(200)) || rapid.IntRange(0, 3).Draw(t, "topup") == 0 {
+			from := (who + 1) % h.rich
+			return txSpec{from, h.enc(&banktypes.MsgSend{FromAddress: h.addr(from), ToAddress: h.addr(who), Amount: coins("stake", 1_000_000)})}, true
+		}
+		keep := int64(rapid.SampledFrom([]int{0, 1, 5, 49, 120}).Draw(t, "keep"))
+		to := (who + 1) % h.rich
+		return txSpec{who, h.enc(&banktypes.MsgSend{FromAddress: h.addr(who), ToAddress: h.addr(to), Amount: sdk.NewCoins(sdk.NewCoin("stake", bal.SubRaw(keep)))})}, true
 	case "record":
 		n := rapid.IntRange(1, 2).Draw(t, "copies")
 		msg := &recordtypes.MsgCreateRecord{Creator: me, Contents: []recordtypes.Content{{Digest: pick(t, "dg", []string{"d0", "d1"}), DigestAlgo: "sha256", URI: "u", Meta: "m"}}}
@@ -633,6 +659,13 @@ func (h *hist) nextTx(t *rapid.T) (txSpec, bool) {
 		}
 	case "service":
 		a := rapid.IntRange(0, 11).Draw(t, "svcop")
+		if len(w.feeds) > 0 && rapid.IntRange(0, 7).Draw(t, "pricecall") == 0 {
+			// the oracle-price system service answers from the feed of that name (registered by the oracle keeper in the
+			// service keeper's process memory)
+			f := pick(t, "pricefeed", w.feeds)
+			return txSpec{u, h.enc(&servicetypes.MsgCallService{ServiceName: servicetypes.OraclePriceServiceName, Providers: []string{servicetypes.OraclePriceServiceProvider.String()}, Consumer: me,
+				Input: fmt.Sprintf(`{"header":{},"body":{"pair":"%s"}}`, f.Name), ServiceFeeCap: coins("stake", 10), Timeout: 1})}, true
+		}
 		switch {
 		case a == 0 || len(w.svcs) == 0:
 			return txSpec{u, h.enc(&servicetypes.MsgDefineService{Name: fmt.Sprintf("svc%d", s), Description: "d", Tags: []string{"t"}, Author: me, AuthorDescription: "a", Schemas: hSchemas})}, true
@@ -642,7 +675,19 @@ func (h *hist) nextTx(t *rapid.T) (txSpec, bool) {
 			if rapid.IntRange(0, 3).Draw(t, "dear") == 0 {
 				price = rapid.SampledFrom([]int{300, 400, 700}).Draw(t, "dearprice") // a poor consumer can pay one such batch, not two
 			}
-			pricing := fmt.Sprintf(`{"price":"%dstake"`, price)
+			pdenom := "stake"
+			if rapid.IntRange(0, 4).Draw(t, "pricedenom") == 0 {
+				// priced in another coin: the service module converts through the oracle-price system service and a feed
+				// named "<coin>-stake"
+				pdenom = rapid.SampledFrom([]string{"usdt", "eth"}).Draw(t, "pdenom")
+			}
+			for _, d := range []string{"usdt", "eth"} {
+				// a pair feed holds a value: a price in that coin can be converted now
+				if len(k.Oracle.GetFeedValues(ctx, d+"-stake")) > 0 && rapid.Bool().Draw(t, "usepair") {
+					pdenom = d
+				}
+			}
+			pricing := fmt.Sprintf(`{"price":"%d%s"`, price, pdenom)
 			if rapid.IntRange(0, 2).Draw(t, "timepromo") == 0 {
 				// a promotion by time that is in force now, about to start, or about to end (blocks advance 1-8 s, sometimes minutes)
 				now := ctx.BlockTime().Unix()
@@ -660,7 +705,12 @@ func (h *hist) nextTx(t *rapid.T) (txSpec, bool) {
 				// an owner binds another account as provider: owner and provider indexes are then different things
 				prov = h.addr(h.user(t, "prov"))
 			}
-			return txSpec{u, h.enc(&servicetypes.MsgBindService{ServiceName: svc, Provider: prov, Deposit: coins("stake", 25000+int64(price)*1000), Pricing: pricing, QoS: uint64(rapid.IntRange(1, 3).Draw(t, "qos")), Options: "{}", Owner: me})}, true
+			deposit := coins("stake", 25000+int64(price)*1000)
+			if pdenom != "stake" {
+				// the minimum deposit is the converted price times the deposit multiple; feed values go up to 5000
+				deposit = coins("stake", 1_000_000_000_000)
+			}
+			return txSpec{u, h.enc(&servicetypes.MsgBindService{ServiceName: svc, Provider: prov, Deposit: deposit, Pricing: pricing, QoS: uint64(rapid.IntRange(1, 3).Draw(t, "qos")), Options: "{}", Owner: me})}, true
 		case a <= 4:
 			b := pick(t, "binding", w.bindings)
 			var provs []string
@@ -789,8 +839,15 @@ func (h *hist) nextTx(t *rapid.T) (txSpec, bool) {
 			sort.Strings(provs)
 			timeout := int64(rapid.IntRange(1, 4).Draw(t, "timeout"))
 			name := fmt.Sprintf("feed%d", s)
-			if rapid.IntRange(0, 2).Draw(t, "pairname") == 0 {
+			switch rapid.IntRange(0, 5).Draw(t, "pairname") {
+			case 0:
 				name = fmt.Sprintf("usdt%d-stake", s)
+			case 1, 2, 3:
+				// an exchange pair the service module looks up when a price is quoted in that coin
+				name = rapid.SampledFrom([]string{"usdt-stake", "eth-stake"}).Draw(t, "pair")
+				if _, found := k.Oracle.GetFeed(ctx, name); found {
+					name = map[string]string{"usdt-stake": "eth-stake", "eth-stake": "usdt-stake"}[name]
+				}
 			}
 			return txSpec{u, h.enc(&oracletypes.MsgCreateFeed{FeedName: name, LatestHistory: uint64(rapid.SampledFrom([]int{1, 2, 2, 2, 3, 4}).Draw(t, "hist")), Description: "feed", Creator: me, ServiceName: b.Svc,
 				Providers: provs, Input: hInput, Timeout: timeout, ServiceFeeCap: coins("stake", 50), RepeatedFrequency: uint64(timeout) + uint64(rapid.IntRange(0, 3).Draw(t, "freq")),
@@ -823,6 +880,12 @@ func attrs(evs []abci.Event, typ, key string) []string { return chain.EventAttrs
 // observe updates the world from the baseline replica's results of a block.
 func (h *hist) observe(op blockOp, resp *abci.ResponseFinalizeBlock) {
 	w := h.w
+	// contexts the end blocker paused on its own (the consumer cannot pay, or the batch cannot be priced)
+	for _, ev := range resp.Events {
+		if ev.Type == "pause_context" || ev.Type == "no_exchange_rate" {
+			w.autoPaused++
+		}
+	}
 	for i, tx := range op.Txs {
 		msgs, err := decodeMsgs(h.n, tx.Msgs)
 		if err != nil {
@@ -840,6 +903,11 @@ func (h *hist) observe(op blockOp, resp *abci.ResponseFinalizeBlock) {
 			w.modules[parts[0]]++
 		}
 		if res.Code != 0 {
+			if os.Getenv("VERIF_DEBUG_BIND") != "" {
+				if b, ok := msgs[0].(*servicetypes.MsgBindService); ok && !strings.Contains(b.Pricing, `stake"`) {
+					fmt.Fprintf(os.Stderr, "BINDFAIL %s\n", res.Log)
+				}
+			}
 			if _, poisoned := msgs[len(msgs)-1].(*banktypes.MsgSend); poisoned && len(msgs) >= 2 {
 				w.discardedAfterExec++
 			}
@@ -905,7 +973,13 @@ func (h *hist) observe(op blockOp, resp *abci.ResponseFinalizeBlock) {
 				if strings.Contains(x.Pricing, "promotions_by_time") {
 					w.timePromoBindings++
 				}
+				if !strings.Contains(x.Pricing, `stake"`) {
+					w.foreignPriced++
+				}
 			case *servicetypes.MsgCallService:
+				if x.ServiceName == servicetypes.OraclePriceServiceName {
+					w.priceCalls++
+				}
 				for _, id := range attrs(res.Events, "create_context", "request_context_id") {
 					w.ctxs = append(w.ctxs, hCtx{id, tx.User})
 				}
